@@ -275,11 +275,15 @@ class SymNum:
     def __mul__(self, o):
         if isinstance(o, SymComplex) or isinstance(o, complex):
             return SymComplex.lift(o) * self
+        if isinstance(o, (bytes, bytearray)):
+            return _bytes_times(o, self)
         return self._bin(o, lambda a, b: a * b)
 
     def __rmul__(self, o):
         if isinstance(o, complex):
             return SymComplex.lift(o) * self
+        if isinstance(o, (bytes, bytearray)):
+            return _bytes_times(o, self)
         return self._rbin(o, lambda a, b: a * b)
 
     def __neg__(self):
@@ -588,6 +592,23 @@ class SymNum:
 
     def __copy__(self):
         return self
+
+
+def _bytes_times(b, n: "SymNum"):
+    """b * n for a symbolic count: concrete when n is; NUL padding of symbolic length is a
+    zero Blob (negative counts give the empty string, as in Python)."""
+    if not n.is_int:
+        raise TypeError("can't multiply sequence by non-int of type 'float'")
+    c = n.concrete()
+    if c is not None:
+        return bytes(b) * c
+    from .blobs import Blob
+
+    if bool(n <= 0):
+        return b""
+    if bytes(b) == b"\0":
+        return Blob.zeros(n)
+    raise Unsupported("repetition of a non-NUL byte string by a symbolic count")
 
 
 def _const_int(o):
